@@ -144,16 +144,19 @@ def qn (pfx : Option (List Char)) (n : String) : List Char :=
   | none => n.toList
   | some p => p ++ ':' :: n.toList
 
-def numFmtEvs (pfx : Option (List Char)) (idFirst : Bool) (f : Nat × List Char) : List SEv :=
-  let a1 : List Char × Bytes := ("numFmtId".toList, NumFmt.decimal f.1)
+/-- an id spelled with `z` leading zeros -/
+def padId (z n : Nat) : Bytes := List.replicate z 48 ++ NumFmt.decimal n
+
+def numFmtEvs (pfx : Option (List Char)) (idFirst : Bool) (z : Nat) (f : Nat × List Char) : List SEv :=
+  let a1 : List Char × Bytes := ("numFmtId".toList, padId z f.1)
   let a2 : List Char × Bytes := ("formatCode".toList, utf8Bytes f.2)
   [.start (qn pfx "numFmt") (if idFirst then [a1, a2] else [a2, a1]), .end_ (qn pfx "numFmt")]
 
 /-- a cell XF: `numFmtId` among other attributes (`before`, `after`: any attributes not called `numFmtId`),
     possibly with children (`alignment`, `protection`: `inner`, any events that are not an `xf` start nor a
     `cellXfs` end) -/
-def xfEvs (pfx : Option (List Char)) (before after : List (List Char × Bytes)) (inner : List SEv) (id : Nat) : List SEv :=
-  .start (qn pfx "xf") (before ++ ("numFmtId".toList, NumFmt.decimal id) :: after) :: inner ++ [.end_ (qn pfx "xf")]
+def xfEvs (pfx : Option (List Char)) (before after : List (List Char × Bytes)) (inner : List SEv) (z : Nat) (id : Nat) : List SEv :=
+  .start (qn pfx "xf") (before ++ ("numFmtId".toList, padId z id) :: after) :: inner ++ [.end_ (qn pfx "xf")]
 
 /-- `pre`: events between the root and `<numFmts>`; `mid`: between `</numFmts>` and `<cellXfs>` (fonts, fills,
     borders, the cellStyleXfs block with its `<xf numFmtId=…>`); `post`: after `</cellXfs>` up to the root's end
@@ -171,13 +174,16 @@ structure XlsxLayout where
   xfAfter : List (List Char × Bytes)
   xfInner : List SEv
   trailing : List SEv
+  /-- leading zeros of the ids in `<numFmt>` / in `<xf>` (independent of each other) -/
+  fmtZeros : Nat
+  xfZeros : Nat
   deriving Repr, DecidableEq
 
 def xlsxEncode (d : StyleDesc) (l : XlsxLayout) : List SEv :=
   .start (qn l.pfx "styleSheet") l.rootAttrs :: (l.pre ++
-  (.start (qn l.pfx "numFmts") [] :: (d.formats.flatMap (numFmtEvs l.pfx l.idFirst) ++
+  (.start (qn l.pfx "numFmts") [] :: (d.formats.flatMap (numFmtEvs l.pfx l.idFirst l.fmtZeros) ++
   (.end_ (qn l.pfx "numFmts") :: (l.mid ++
-  (.start (qn l.pfx "cellXfs") [] :: (d.xfs.flatMap (xfEvs l.pfx l.xfBefore l.xfAfter l.xfInner) ++
+  (.start (qn l.pfx "cellXfs") [] :: (d.xfs.flatMap (xfEvs l.pfx l.xfBefore l.xfAfter l.xfInner l.xfZeros) ++
   (.end_ (qn l.pfx "cellXfs") :: (l.post ++ .end_ (qn l.pfx "styleSheet") :: l.trailing)))))))))
 
 /-- inert at the top level of the loop -/
